@@ -58,9 +58,9 @@ func init() {
 	core.Register(&core.Prop{
 		ID:    "C12",
 		Level: "exploration",
-		Rule: "seeded well-formed archives (1..40 entries; orders: parents first, children first, shuffled, parents never listed; name spellings x, ./x, /x, a//b, a/./b, with and without trailing slash on directories; permission bits from a fixed set; sizes 0, 1 and around the 150 KiB small-buffer and 4 MiB copy-buffer thresholds; 'many' archives with 300 small entries, more than the buffer pool holds; archives with one escaping name ../x, a/../../x, ..) are unpacked 3 (5 thorough) times each into the default destination, an explicit mem.FS, a destination exposing only OpenFile+Chmod+Mkdir(+Open) and a keyvalue.FS over the real mem store whose transactions yield the processor at random (to shake the background writers); after Done() the tree seen through the tar FS and the destination itself are compared with an independent model of the archive's logical tree: " +
+		Rule: "seeded well-formed archives (1..40 entries; orders: parents first, children first, shuffled, parents never listed; name spellings x, ./x, /x, a//b, a/./b, with and without trailing slash on directories; in a quarter of the archives an explicit entry for the root ('./', '.', '/') carrying its own permission bits; permission bits from a fixed set; sizes 0, 1 and around the 150 KiB small-buffer and 4 MiB copy-buffer thresholds; 'many' archives with 300 small entries, more than the buffer pool holds; archives with one escaping name ../x, a/../../x, ..) are unpacked 3 (5 thorough) times each into the default destination, an explicit mem.FS, a destination exposing only OpenFile+Chmod+Mkdir(+Open) and a keyvalue.FS over the real mem store whose transactions yield the processor at random (to shake the background writers); after Done() the tree seen through the tar FS and the destination itself are compared with an independent model of the archive's logical tree: " +
 			"every regular entry with its bytes and permission bits, every directory entry with its bits, every ancestor as a directory, nothing else; escaping archives must end with UnarchiveErr and must not have asked the destination for any invalid path. Non-trivial: archives with both explicit and implied directories, or sizes across a threshold, or an escaping entry; distinct by archive",
-		Assumptions: []string{"entry names are distinct after normalisation", "the mode of implied (never listed) ancestors and of the root is not compared", "race detector on; background writer schedules vary between the repeated unpackings"},
+		Assumptions: []string{"entry names are distinct after normalisation", "the mode of implied (never listed) ancestors, and of the root unless the archive has an entry for it, is not compared", "race detector on; background writer schedules vary between the repeated unpackings"},
 		NumCases:    func(env *core.Env) int { return len(c12cases(env)) },
 		Batch:       10,
 		Race:        true,
@@ -162,6 +162,15 @@ func c12archive(r *rand.Rand, shape string) []tarx.Entry {
 			}
 		}
 		entries = append(entries, e)
+	}
+	if r.Intn(4) == 0 {
+		// an explicit entry for the root itself, as 'tar -C dir -cf x.tar .' writes
+		rootEntry := tarx.Entry{Name: []string{"./", ".", "/", "./."}[r.Intn(4)], Dir: true, Perm: []uint32{0o755, 0o700, 0o750, 0o711}[r.Intn(4)], Tag: 98}
+		at := r.Intn(len(entries) + 1)
+		if r.Intn(2) == 0 {
+			at = 0
+		}
+		entries = append(entries[:at], append([]tarx.Entry{rootEntry}, entries[at:]...)...)
 	}
 	if shape == "escaping" {
 		esc := tarx.Entry{Name: []string{"../x", "a/../../x", "..", "../../etc/passwd", "a/b/../../../x", "../"}[r.Intn(6)], Perm: 0o644, Size: 10, Tag: 99}
@@ -319,6 +328,11 @@ func c12run(env *core.Env, idx int) core.CaseResult {
 			for p, n := range model {
 				res.Count("entries_checked", 1)
 				e, ok := snap[p]
+				if p == "." && ok { // (snapshots leave the root's mode out)
+					if info, err := hackpadfs.Stat(fsys, "."); err == nil {
+						e.Mode = uint32(info.Mode())
+					}
+				}
 				kind := "file"
 				if n.Dir {
 					kind = "dir"
